@@ -239,3 +239,40 @@ func VerifC10_EncryptKeepsCaller(mt, nFOpts, nFRM int) {
 	verifAssert(verifBytesEq(out2, snap), "the encrypted frame does not alias the caller's plaintext buffers")
 	verifReach("done")
 }
+
+// Marshal* / Set*MIC / Validate*MIC of a frame whose payload slices are sub-slices of caller buffers with spare
+// capacity never write behind those slices (nor into them).
+func VerifC10_GuardMarshal(mt, n1, n2 int) {
+	mtype := c03MType(mt)
+	b1 := verifNondetBytes("foptsBuf", n1+3)
+	b2 := verifNondetBytes("frmBuf", n2+3)
+	o1, o2 := verifCopy(b1), verifCopy(b2)
+	fPort := verifNondetU8("fport")
+	verifAssume(fPort > 0)
+	mp := &MACPayload{FHDR: FHDR{DevAddr: DevAddr(verifNondet4("devaddr")), FCnt: verifNondetU32("fcnt")}}
+	if n1 > 0 {
+		mp.FHDR.FOpts = []Payload{&DataPayload{Bytes: b1[:n1]}, &MACCommand{CID: DeviceTimeReq}}
+	}
+	if n2 > 0 {
+		mp.FPort = &fPort
+		mp.FRMPayload = []Payload{&DataPayload{Bytes: b2[:n2]}}
+	}
+	p := PHYPayload{MHDR: MHDR{MType: mtype, Major: LoRaWANR1}, MACPayload: mp}
+	_, err := mp.FHDR.MarshalBinary()
+	verifAssert(err == nil, "FHDR encodes")
+	_, err = p.MarshalBinary()
+	verifAssert(err == nil, "frame encodes")
+	k := c05DrawKeys()
+	ver := c02Version(int(verifNondetU8("version") & 1))
+	if specIsUplink(mtype) {
+		verifAssert(p.SetUplinkDataMIC(ver, k.confFCnt, k.txDR, k.txCh, AES128Key(k.fNwkSInt), AES128Key(k.sNwkSInt)) == nil, "MIC set")
+		p.ValidateUplinkDataMIC(ver, k.confFCnt, k.txDR, k.txCh, AES128Key(k.fNwkSInt), AES128Key(k.sNwkSInt))
+	} else {
+		verifAssert(p.SetDownlinkDataMIC(ver, k.confFCnt, AES128Key(k.sNwkSInt)) == nil, "MIC set")
+		p.ValidateDownlinkDataMIC(ver, k.confFCnt, AES128Key(k.sNwkSInt))
+	}
+	p.MarshalText()
+	verifAssert(verifBytesEq(b1, o1), "encoding / MIC functions do not write into or behind the caller's FOpts bytes")
+	verifAssert(verifBytesEq(b2, o2), "encoding / MIC functions do not write into or behind the caller's FRMPayload bytes")
+	verifReach("done")
+}
